@@ -4,6 +4,7 @@
 //	VERIF_FAULT_LOG=<file>   append one line per point instance ("site")
 //	VERIF_CRASH=<site>#<n>   SIGKILL the process when the n-th instance of site is reached
 //	VERIF_SIGNAL=<site>#<n>:<INT|TERM>  deliver the signal to the own process there
+//	VERIF_SIGNAL_STALL_MS=<ms>  ... and keep the goroutine that reached the point there for that long
 package vfault
 
 import (
@@ -78,5 +79,10 @@ func Point(s string) {
 		syscall.Kill(syscall.Getpid(), sig)
 		// give the signal handler goroutine a chance to run before continuing
 		time.Sleep(50 * time.Millisecond)
+		// VERIF_SIGNAL_STALL_MS: the operation that the signal interrupted is slow (a large output, a slow disk):
+		// this goroutine stays where it is for that long, grog's handling of the signal goes on without it
+		if ms, _ := strconv.Atoi(os.Getenv("VERIF_SIGNAL_STALL_MS")); ms > 0 {
+			time.Sleep(time.Duration(ms) * time.Millisecond)
+		}
 	}
 }
